@@ -12,7 +12,7 @@ import math
 from fractions import Fraction
 from typing import Any, Optional
 
-from .values import INF, POLY, Bool, Interval, Num, bool_to_num, mk_sym, sym_const
+from .values import INF, POLY, Bool, Interval, Num, bool_to_num, has_opq, mk_sym, sym_const
 
 F0 = Fraction(0)
 FLOAT = frozenset({"float"})
@@ -220,7 +220,13 @@ class NumOps:
             except OverflowError:
                 pass
         self.I.on_arith(node, opname, a, b, prov)
-        return Num(kinds=kinds, rng=rng, deg=deg, prov=prov, sym=sym, const=const)
+        res = Num(kinds=kinds, rng=rng, deg=deg, prov=prov, sym=sym, const=const)
+        h = self.I.hooks.get("arith-result")
+        if h is not None:
+            r = h(self.I, node, opname, a, b, res)
+            if r is not None:
+                res = r
+        return res
 
     # ---------------------------------------------------------------- unary
     def neg(self, a: Num, node) -> Num:
@@ -265,7 +271,7 @@ class NumOps:
                 rel = None
         if rel is None and a.sym is not None and b.sym is not None:
             rel = state.rel_lookup(a.sym, b.sym)
-            if rel is None and a.sym == b.sym and not _may_be_nan(a):
+            if rel is None and a.sym == b.sym and not _may_be_nan(a) and not has_opq(a.sym):
                 rel = frozenset({"EQ"})
         if rel and type(op) in _REL_TABLE:
             tvs = {_REL_TABLE[type(op)][r] for r in rel}
